@@ -215,7 +215,10 @@ class AccCompiler:
         return a
 
 
-def translate_accessors(read_src, consts, aliases=None, fallback=None):
+SIGNATURE_CHANGES = []
+
+
+def translate_accessors(read_src, consts, aliases=None, fallback=None, pinned=None):
     """-> list of items {type, fn, params [(field, rust type)], rty, lean_ty, body, monadic}"""
     items = []
     for fname, tname, fns in ACCESSORS:
@@ -259,6 +262,14 @@ def translate_accessors(read_src, consts, aliases=None, fallback=None):
                 if fallback is None:
                     raise
                 item = fallback("accessors", key, e)
+            # The parameter list is what the hand-written model passes (by name).  If the body now reads other fields than
+            # the pinned tree's, the *model* keeps the pinned translation (so that every other property's model still
+            # builds; it stays tied to the code by the correspondence) and the change is reported: the theorems of the
+            # property that speaks about this accessor are stated for exactly the pinned field list, so ./check treats the
+            # report as a broken obligation of that property only.
+            if pinned is not None and key in pinned and [p for p, _ in pinned[key]["params"]] != [p for p, _ in item["params"]]:
+                SIGNATURE_CHANGES.append({"item": key, "now": [p for p, _ in item["params"]], "pinned": [p for p, _ in pinned[key]["params"]]})
+                item = dict(pinned[key])
             done[fn] = item
             items.append(item)
     return items
